@@ -473,16 +473,74 @@ def emission_order(ctx, prods):
                 n = parent(n)
             # loops: innermost first; drop the group loop (outermost)
             inner = loops[:-1] if pr.group_loop in loops else loops
-            comps = []
+            want = [2, 1] if not pr.is_2d else [2]
+            # the block that is put: a subscript of the plane-set buffer (possibly through .copy() and a local)
+            arg = c.args[0] if c.args else None
+            for _ in range(3):
+                if isinstance(arg, ast.Call) and isinstance(arg.func, ast.Attribute) and arg.func.attr in ('copy', 'ascontiguousarray') \
+                        and not arg.args:
+                    arg = arg.func.value
+                elif isinstance(arg, ast.Call) and U(arg.func).split('.')[-1] in ('ascontiguousarray', 'copy', 'array') and arg.args:
+                    arg = arg.args[0]
+                elif isinstance(arg, ast.Name):
+                    ds = [a for a in ast.walk(pr.func.node) if isinstance(a, ast.Assign) and len(a.targets) == 1 and
+                          isinstance(a.targets[0], ast.Name) and a.targets[0].id == arg.id]
+                    if len(ds) != 1:
+                        break
+                    arg = ds[0].value
+                else:
+                    break
+            nd = 2 if pr.is_2d else 3
+            # pieces produced by np.split(X, n, axis=k) in nested loops: each loop moves axis k of the group buffer
+            split_axes = []
+            cur = arg
+            while isinstance(cur, ast.Name):
+                lp_ = [l for l in loops if isinstance(l.target, ast.Name) and l.target.id == cur.id]
+                if not lp_ or not (isinstance(lp_[0].iter, ast.Call) and U(lp_[0].iter.func).split('.')[-1] in ('split', 'array_split')
+                                   and lp_[0].iter.args):
+                    break
+                kw = {k.arg: k.value for k in lp_[0].iter.keywords}
+                ax = kw.get('axis') or (lp_[0].iter.args[2] if len(lp_[0].iter.args) > 2 else ast.Constant(value=0))
+                if not (isinstance(ax, ast.Constant) and isinstance(ax.value, int)):
+                    raise AnalysisError('%s: split axis at line %d is not a literal' % (pr.func.qualname, lp_[0].lineno))
+                split_axes.append((ax.value % nd) + (3 - nd))
+                cur = lp_[0].iter.args[0]
+            if split_axes:
+                if len(split_axes) != len(inner):
+                    raise AnalysisError('%s: block emission at line %d mixes split pieces and other loops' % (pr.func.qualname, c.lineno))
+                if split_axes == want:
+                    ctx.ok('C01.6', pr.func, c, 'pieces are split with z innermost, then x')
+                else:
+                    ctx.fail('C01.6', pr.func, enclosing_stmt(c), 'per-block emission loops (innermost first) split the group buffer along '
+                             'axes %s; the reader addresses blocks with z (axis 2) fastest, then x (axis 1): expected %s' % (
+                                 split_axes, want), line=c.lineno)
+                continue
+            if not isinstance(arg, ast.Subscript) or not isinstance(arg.slice, ast.Tuple) or len(arg.slice.elts) != nd:
+                raise AnalysisError('%s: the block put at line %d is not a %d-axis subscript of the group buffer (`%s`)' % (
+                    pr.func.qualname, c.lineno, nd, U(c)[:60]))
+            elts = arg.slice.elts
+            shift = 3 - nd          # subscript position -> axis of the (il, xl, z) / (1, trace, z) frame
+            comps, probs = [], []
             for lp in inner:
-                m = re.search(r'padded_shape\[(\d)\] // blockshape\[(\d)\]', U(lp.iter))
-                comps.append((int(m.group(1)), int(m.group(2))) if m else None)
-            want = [(2, 2), (1, 1)] if not pr.is_2d else [(2, 2)]
-            if comps == want:
+                vars_ = {x.id for x in ast.walk(lp.target) if isinstance(x, ast.Name)}
+                pos = [j for j, e in enumerate(elts) if vars_ & {x.id for x in ast.walk(e) if isinstance(x, ast.Name)}]
+                if len(pos) != 1:
+                    raise AnalysisError('%s: loop variable `%s` of the block emission at line %d occurs in %d subscript positions' % (
+                        pr.func.qualname, U(lp.target), c.lineno, len(pos)))
+                j = pos[0] + shift
+                comps.append(j)
+                other = [k for k in range(3) if k != j and ('blockshape[%d]' % k) in U(elts[pos[0]])]
+                if other:
+                    probs.append('position %d of the block is stepped by blockshape[%d]' % (j, other[0]))
+                m = re.search(r'padded_shape\[(\d)\]', U(lp.iter))
+                if m and int(m.group(1)) != j:
+                    probs.append('the loop that moves position %d of the block runs over padded_shape[%s]' % (j, m.group(1)))
+            if comps == want and not probs:
                 ctx.ok('C01.6', pr.func, c, 'blocks are emitted with %s' % ('x outer, z inner' if not pr.is_2d else 'z inside the trace group'))
             else:
-                ctx.fail('C01.6', pr.func, enclosing_stmt(c), 'per-block emission loops (innermost first) range over %s; the reader '
-                         'addresses blocks with z fastest, then x: expected %s' % (comps, want), line=c.lineno)
+                ctx.fail('C01.6', pr.func, enclosing_stmt(c), 'per-block emission loops (innermost first) move subscript positions %s of '
+                         'the group buffer (as axes of the il / xl / z frame)%s; the reader addresses blocks with z (axis 2) fastest, then x (axis 1): '
+                         'expected %s' % (comps, ('; ' + '; '.join(probs)) if probs else '', want), line=c.lineno)
     ctx.floor('C01.6', 3)
 
 
